@@ -222,3 +222,52 @@ Proof.
         -- intros (w & r & H & [[Hw ->]|[Hw ->]]); injection H as <- <-; [congruence|reflexivity].
       * split; [discriminate|]. intros (w & r & H & [[Hw _]|[Hw _]]); injection H as <- <-; congruence.
 Qed.
+
+(** * a byte string whose data ends before its announced length is refused,
+    on both sides of readN's threshold (no short read is ever accepted) *)
+Lemma read_fullN_short n d a p : N.of_nat (length d) < n ->
+  read_fullN n (mkst d a p) = (Err EEof, mkst [] a p).
+Proof.
+  intros H. unfold read_fullN. cbn [inp alloc peak]. rewrite shortN_spec.
+  apply N.ltb_lt in H. now rewrite H.
+Qed.
+
+Theorem read_byte_slice_truncated n d a p : n < two24 -> N.of_nat (length d) < n ->
+  fst (read_byte_slice (mkst (bytes_header n ++ d) a p)) = Err EEof.
+Proof.
+  intros Hn Hd. unfold bytes_header, read_byte_slice.
+  destruct (N.ltb_spec n 254) as [Hs|Hl]; cbn [app].
+  - unfold mbind at 1. unfold read_full at 1. cbn [inp alloc peak short firstn skipn].
+    rewrite le_num_1. apply N.ltb_lt in Hs. rewrite Hs.
+    unfold mbind at 1. unfold make. cbn [inp alloc peak].
+    destruct (N.ltb_spec max_alloc (n * 1)) as [H|_]; [unfold max_alloc, two24 in *; lia|].
+    unfold mbind at 1. rewrite read_fullN_short by exact Hd. reflexivity.
+  - unfold mbind at 1. unfold read_full at 1. cbn [inp alloc peak short firstn skipn].
+    rewrite le_num_1. change (254 <? 254) with false. change (254 =? 254) with true. cbv iota.
+    unfold mbind at 1. unfold make at 1. cbn [inp alloc peak].
+    change (max_alloc <? 4 * 1) with false. cbv iota.
+    unfold mbind at 1. unfold read_full at 1. cbn [inp alloc peak].
+    change (short 3 (le_bytes 3 n ++ d)) with false. cbv iota.
+    destruct (le_bytes3_split n d) as [-> ->].
+    rewrite le_num_le_bytes_small by (rewrite pow256_3; exact Hn).
+    unfold mbind at 1.
+    assert (Hm : exists a' p', (if n <=? max_prealloc then make n 1 else mret tt)
+                   (mkst d (a + 4 * 1) (N.max p (4 * 1))) = (Ok tt, mkst d a' p')).
+    { destruct (n <=? max_prealloc); [|eexists _, _; reflexivity].
+      unfold make. cbn [inp alloc peak].
+      destruct (N.ltb_spec max_alloc (n * 1)) as [H|_]; [unfold max_alloc, two24 in *; lia|].
+      eexists _, _; reflexivity. }
+    destruct Hm as (a' & p' & ->).
+    unfold mbind at 1. rewrite read_fullN_short by exact Hd. reflexivity.
+Qed.
+
+(** * answers under a constructor id that is neither the error's nor the result's are refused *)
+Theorem go_response_foreign B m resp : short 4 resp = false ->
+  le_num (firstn 4 resp) <> m_err_id m -> ~ In (le_num (firstn 4 resp)) (m_resp_ids m) ->
+  go_response B m resp = Err EInvalid.
+Proof.
+  intros Hs He Hr. unfold go_response. rewrite Hs.
+  destruct (N.eqb_spec (le_num (firstn 4 resp)) (m_err_id m)) as [E|_]; [contradiction|].
+  destruct (existsb (N.eqb (le_num (firstn 4 resp))) (m_resp_ids m)) eqn:Ex; [|reflexivity].
+  apply existsb_exists in Ex as (x & Hin & Hx). apply N.eqb_eq in Hx. subst x. contradiction.
+Qed.
